@@ -12,6 +12,8 @@ Tie, on every run:
        match arms (2, 3, 5), in constrained and unconstrained contexts
   scope  every binding construct x {use in scope, use of that name just outside its scope}; theorems of
        Props/C06c.lean over builder C13's Model/Scope.lean, tied by C13's `ssa` protocol run on these programs
+  sup  real resolve_all_transitive_super_types (hook) vs Gates.resolveSupers on random declaration graphs (exact)
+  abs/confi/nam  abstract-type gate, conformance against generic interface instances, class/module/member names
   vis/imp/tya/conf/bnd  Lean kernels of Model/Gates.lean (visibility, imports, type-argument arity,
        interface conformance, bound validation) vs the real checker on generated declarations
 Direct implementation-side oracles (no model): literal range spec on token streams and parsed
@@ -1791,11 +1793,12 @@ def run(ctx):
         "fixed_findings": ["C06-F1 (d5c9a21): int_range_exact / accepted_literals_faithful now full strength",
                            "C06-F2 (db690ec): if condition checked against bool",
                            "C06-F3 (d05f979): private fields no longer visible in a same-named class of another module"],
-        "pending": ["exhaustiveness (C07's model) is reached by the mutant oracle only; name resolution is covered through builder C13's Model/Scope.lean (scope-exit theorems in Props/C06c.lean) for local scopes; class/member/module name resolution: mutant oracle only",
-                    "the inference engine that decides where `any` placeholders arise (hints, lambdas) is not modelled",
-                    "resolve_all_transitive_super_types and the substitution of interface type arguments into inherited signatures are inputs of the bound / conformance kernels (computed by the generator), not modelled",
+        "pending": ["the inference engine that decides where `any` placeholders arise (hints, lambda parameter inference) is not modelled",
+                    "cycle_detected is fuel-indexed; a fuel-free (well-founded) definition of resolveSupers and exactness of the collected list are not proved (the list is tied exactly by the sup stream)",
+                    "gate kernels other than sup are tied by whole-program verdicts, not by function-level hooks",
+                    "error *location* (module of the diagnostic) is observed by the oracle only; locations are not in the models",
                     "solve_sound is proved for any-free concrete types; with placeholders inside the concrete type only the slv oracle applies",
-                    "abstract-type-as-type-argument gate (enforce_concrete_types) not modelled"]})
+                    "generic type arguments with their own bounds are outside boundOk"]})
     ctx.assumptions += ["valid UTF-8 sources", "integer literal text matches the lexer regex 0|[1-9][0-9]* (checked by the tok correspondence)",
                         "reasons/locations are not part of a type's identity (dropped in Model/Assign.lean)"]
     return ctx.finish(res, trusted=common.TRUSTED_COMMON + [
